@@ -187,6 +187,10 @@ pub struct Profile {
     pub specify_any_pct: u32,
     /// percent of programs whose struct identity fields use the coarse (colliding) hash
     pub coarse_hash_pct: u32,
+    /// percentage of history positions (lattice programs) that become an episode
+    /// `Get x · Set <a field guarding some If> · Get x · Get <static callees of x>`:
+    /// entry, reshape of the call graph, re-entry, members visited on their own
+    pub episode_pct: u32,
 }
 
 impl Profile {
@@ -216,6 +220,7 @@ impl Profile {
             intern_shape: false,
             specify_any_pct: 0,
             coarse_hash_pct: 0,
+            episode_pct: 0,
         }
     }
 }
@@ -362,7 +367,40 @@ pub fn gen_history(t: &mut Tape, prog: &Program, pf: &Profile) -> Vec<Step> {
     let lru_nodes: Vec<u8> =
         prog.nodes.iter().enumerate().filter(|(_, n)| n.kind == Kind::Lru).map(|(i, _)| i as u8).collect();
     let mut v = Vec::new();
-    for _ in 0..n {
+    let guards = if pf.episode_pct > 0 { if_guards(prog) } else { vec![] };
+    while (v.len() as u32) < n {
+        if !guards.is_empty() && t.pick(100) < pf.episode_pct {
+            let x = t.pick(nnodes) as u8;
+            let (slot, field, thr) = guards[t.pick(guards.len() as u32) as usize];
+            // at, just below, or anywhere around the threshold
+            let val = match t.pick(3) {
+                0 => thr % VMOD,
+                1 => thr.saturating_sub(1) % VMOD,
+                _ => t.pick(VMOD),
+            };
+            if t.chance(3, 4) {
+                v.push(Step::Get { node: x, arg: 0 });
+            }
+            v.push(Step::Set { slot, field, val, dur: None });
+            if t.chance(3, 4) {
+                v.push(Step::Get { node: x, arg: 0 });
+            }
+            let cs = static_callees(&prog.nodes[x as usize].body);
+            if !cs.is_empty() {
+                for _ in 0..1 + t.pick(2) {
+                    let mut c = cs[t.pick(cs.len() as u32) as usize];
+                    // sometimes one level further down
+                    if t.chance(1, 3) {
+                        let cs2 = static_callees(&prog.nodes[c as usize].body);
+                        if !cs2.is_empty() {
+                            c = cs2[t.pick(cs2.len() as u32) as usize];
+                        }
+                    }
+                    v.push(Step::Get { node: c, arg: 0 });
+                }
+            }
+            continue;
+        }
         let mut k = t.weighted(&pf.steps);
         if k == 3 && ncells == 0 {
             k = 2;
@@ -402,6 +440,40 @@ pub fn gen_history(t: &mut Tape, prog: &Program, pf: &Profile) -> Vec<Step> {
         }
     }
     v
+}
+
+/// (slot, field, threshold) of every `If` in the program
+pub fn if_guards(prog: &Program) -> Vec<(u8, u8, u32)> {
+    fn walk(ops: &[Op], out: &mut Vec<(u8, u8, u32)>) {
+        for o in ops {
+            if let Op::If { slot, field, thr, then, els } = o {
+                out.push((*slot, *field, *thr));
+                walk(then, out);
+                walk(els, out);
+            }
+        }
+    }
+    let mut out = vec![];
+    for n in &prog.nodes {
+        walk(&n.body, &mut out);
+    }
+    out
+}
+
+/// nodes called anywhere in a body (both branches of every `If`)
+pub fn static_callees(ops: &[Op]) -> Vec<u8> {
+    let mut out = vec![];
+    for o in ops {
+        match o {
+            Op::Call { node, .. } | Op::CallMask { node, .. } | Op::CallShift { node, .. } | Op::CallInc { node, .. } | Op::CallNot { node, .. } => out.push(*node),
+            Op::If { then, els, .. } => {
+                out.extend(static_callees(then));
+                out.extend(static_callees(els));
+            }
+            _ => {}
+        }
+    }
+    out
 }
 
 pub fn gen_case(tape: &[u32], pf: &Profile) -> Case {
